@@ -1,23 +1,28 @@
 #!/usr/bin/env bash
-# Mutation self-test of the Go -> Lean translation and of LzProofs/GenProps.lean.
+# Mutation self-test of the Go -> Lean translation and of the LzProofs/GenProps*.lean files.
 #
 # For every mutant: copy /repo to a scratch directory, apply a one-token (or one-block)
-# change to a whitelisted function, regenerate LzModel/Generated/Code.lean from the
-# mutated copy, and run `lake build LzProofs.GenProps`.  The build has to FAIL and the
-# failing theorems are reported by name.  Mutants marked "extract" must already be refused
-# by the extractor (construct outside the supported subset / changed reflect primitive).
-# Finally Code.lean is regenerated from /repo and the build has to succeed again.
+# change to a whitelisted function, regenerate the topic modules LzModel/Generated/Code*.lean
+# from the mutated copy, and run `lake build LzProofs.GenProps` (the umbrella of the topic
+# files GenPropsInts, …, GenPropsDec).  The build has to FAIL and the failing theorems are
+# reported as <file>:<theorem>.  Mutants marked "extract" must already be refused by the
+# extractor (construct outside the supported subset / changed reflect primitive): since the
+# translation is emitted per topic, "refused" means exit status 3 (partial), the refused
+# topics are listed, and the GenProps module of every refused topic must fail to build while
+# the modules of the other topics still build.
+# Finally the code is regenerated from /repo and the build has to succeed again.
 #
-# usage: ./selftest.sh            (exit status 0 iff every mutant is killed and the
+# usage: ./gen_selftest.sh        (exit status 0 iff every mutant is killed and the
 #                                  unmutated tree builds)
+#        LEAN_DIR=<copy of lean/> ./gen_selftest.sh    works on a copy of the lake project
 set -u
 export GOFLAGS=-mod=mod GOPROXY=off GOSUMDB=off GOTOOLCHAIN=local
 
 HERE="$(cd "$(dirname "$0")/.." && pwd)"
 REPO="${REPO:-/repo}"
-LEAN="$HERE/lean"
-CODE="$LEAN/LzModel/Generated/Code.lean"
-PROPS="$LEAN/LzProofs/GenProps.lean"
+LEAN="${LEAN_DIR:-$HERE/lean}"
+GEN="$LEAN/LzModel/Generated"
+CODE="$GEN/Code.lean"
 SCRATCH="$(mktemp -d /tmp/pf-gen-selftest.XXXXXX)"
 EXTRACT="$SCRATCH/extract"
 survived=0
@@ -33,15 +38,29 @@ trap cleanup EXIT
 
 (cd "$HERE/tools/extract" && go build -o "$EXTRACT" .) || { echo "cannot build the extractor"; exit 1; }
 
-# failing theorem names from a build log: for every error position in GenProps.lean the
-# nearest preceding `theorem`
+# failing theorems of a build log as <file>:<theorem>: for every error position in a
+# GenProps file the nearest preceding `theorem`; a file whose import is missing is
+# reported as <file>:(import)
 failing_theorems() {
-  grep -o 'error: LzProofs/GenProps.lean:[0-9]*' "$1" | sed 's/.*://' | sort -n | uniq | while read -r ln; do
-    awk -v L="$ln" 'NR<=L && /^theorem /{name=$2} END{print name}' "$PROPS"
-  done | sort | uniq | tr '\n' ' '
+  {
+    grep -o 'error: LzProofs/GenProps[A-Za-z]*\.lean:[0-9]*' "$1" | sed 's/error: //' | sort -u | while IFS=: read -r f ln; do
+      awk -v L="$ln" -v F="$(basename "$f" .lean)" 'NR<=L && /^theorem /{name=$2} END{if (name=="") name="(import)"; print F ":" name}' "$LEAN/$f"
+    done
+  } | sort -u | tr '\n' ' '
 }
 
 build() { (cd "$LEAN" && lake build LzProofs.GenProps) >"$1" 2>&1; }
+
+# GenProps module of a topic, and the topics whose GenProps modules it imports
+props_of() { echo "LzProofs.GenProps$1"; }
+props_deps() {
+  case "$1" in
+    CfgHP|CfgBHP|CfgDHP|CfgBDHP) echo "CfgBuf CfgHash" ;;
+    CfgBUP)                      echo "CfgBuf CfgBucket" ;;
+    CfgGSAP|CfgOSAP)             echo "CfgBuf" ;;
+  esac
+}
+ALL_TOPICS="Ints Hash Cost Len CfgBuf CfgHash CfgBucket CfgHP CfgBHP CfgDHP CfgBDHP CfgBUP CfgGSAP CfgOSAP Dec"
 
 # mutant <name> <kind: proof|extract> <file> <perl substitution program>
 mutant() {
@@ -55,14 +74,36 @@ mutant() {
   if cmp -s "$dir/$file" "$REPO/$file"; then
     echo "MUTANT $name: the mutation did not apply to $file"; survived=$((survived+1)); return
   fi
-  local change
+  local change rc refused
   change="$(diff "$REPO/$file" "$dir/$file" | grep '^[<>]' | head -4 | sed 's/^/      /')"
-  if ! "$EXTRACT" -repo "$dir" -out "$dir/facts.lean" -code "$CODE" 2>"$dir/extract.err"; then
-    if [ "$kind" = extract ]; then
-      echo "KILLED   $name  [refused by the extractor: $(head -1 "$dir/extract.err")]"
-      killed=$((killed+1))
+  "$EXTRACT" -repo "$dir" -out "$dir/facts.lean" -code "$CODE" 2>"$dir/extract.err"
+  rc=$?
+  refused="$(grep -o 'topic [A-Za-z]* REFUSED' "$dir/extract.err" | awk '{print $2}' | tr '\n' ' ' | sed 's/ $//')"
+  if [ $rc -ne 0 ]; then
+    if [ "$kind" = extract ] && [ $rc -eq 3 ] && [ -n "$refused" ]; then
+      # the modules of the refused topics must not build, the others must
+      local t wrong=""
+      for t in $ALL_TOPICS; do
+        if (cd "$LEAN" && lake build "$(props_of "$t")") >"$dir/b.log" 2>&1; then
+          case " $refused " in *" $t "*) wrong="$wrong $t(builds)" ;; esac
+        else
+          # acceptable only for a refused topic or a module that imports the module of one
+          local excused=0 d
+          case " $refused " in *" $t "*) excused=1 ;; esac
+          for d in $(props_deps "$t"); do case " $refused " in *" $d "*) excused=1 ;; esac; done
+          [ $excused -eq 1 ] || wrong="$wrong $t(fails)"
+        fi
+      done
+      if [ -z "$wrong" ]; then
+        echo "KILLED   $name  [refused by the extractor, topics: $refused — $(grep -v REFUSED "$dir/extract.err" | head -1 | sed 's/^ *//')]"
+        killed=$((killed+1))
+      else
+        echo "MUTANT $name: refused topics [$refused] but unexpected build results:$wrong"; survived=$((survived+1))
+      fi
+    elif [ "$kind" = extract ]; then
+      echo "MUTANT $name: extractor exit status $rc without a refused topic: $(head -3 "$dir/extract.err")"; survived=$((survived+1))
     else
-      echo "MUTANT $name: extractor failed unexpectedly: $(cat "$dir/extract.err")"; survived=$((survived+1))
+      echo "MUTANT $name: extractor failed unexpectedly (status $rc): $(cat "$dir/extract.err")"; survived=$((survived+1))
     fi
     rm -rf "$dir"; return
   fi
@@ -81,16 +122,21 @@ mutant() {
   rm -rf "$dir"
 }
 
+snapshot() { mkdir -p "$1"; cp "$GEN"/Code*.lean "$1"/; }
+
 echo "== baseline: code generated from $REPO builds, generation is deterministic"
 "$EXTRACT" -repo "$REPO" -out "$SCRATCH/facts.lean" -code "$CODE" || exit 1
-cp "$CODE" "$SCRATCH/code1.lean"
-"$EXTRACT" -repo "$REPO" -out "$SCRATCH/facts2.lean" -code "$SCRATCH/code2.lean" || exit 1
-cmp "$SCRATCH/code1.lean" "$SCRATCH/code2.lean" || { echo "generation is not deterministic"; exit 1; }
-if [ -f "$LEAN/LzModel/Generated/Facts.lean" ]; then
-  cmp "$SCRATCH/facts.lean" "$LEAN/LzModel/Generated/Facts.lean" || { echo "Facts.lean output changed"; exit 1; }
+snapshot "$SCRATCH/code1"
+mkdir -p "$SCRATCH/code2"
+"$EXTRACT" -repo "$REPO" -out "$SCRATCH/facts2.lean" -code "$SCRATCH/code2/Code.lean" || exit 1
+diff -r "$SCRATCH/code1" "$SCRATCH/code2" >/dev/null || { echo "generation is not deterministic"; exit 1; }
+cmp "$SCRATCH/facts.lean" "$SCRATCH/facts2.lean" || { echo "generation of Facts.lean is not deterministic"; exit 1; }
+if grep -l "$HERE\|$REPO\|/tmp/" "$SCRATCH"/code1/*.lean "$SCRATCH/facts.lean" 2>/dev/null; then echo "generated files mention an absolute path"; exit 1; fi
+if [ -f "$GEN/Facts.lean" ]; then
+  cmp "$SCRATCH/facts.lean" "$GEN/Facts.lean" || { echo "Facts.lean output changed"; exit 1; }
 fi
 build "$SCRATCH/base.log" || { echo "baseline build FAILED"; tail -30 "$SCRATCH/base.log"; exit 1; }
-echo "   ok"
+echo "   ok ($(ls "$SCRATCH/code1" | wc -l) generated modules)"
 
 echo "== mutants"
 # --- the six mutants of the task description
@@ -147,7 +193,8 @@ mutant "hashCfg applied to a struct without HashBits"         extract hp.go     
 
 echo "== restore: regenerate from $REPO and rebuild"
 "$EXTRACT" -repo "$REPO" -out "$SCRATCH/facts.lean" -code "$CODE" || exit 1
-cmp "$CODE" "$SCRATCH/code1.lean" || { echo "restored Code.lean differs from the baseline"; exit 1; }
+snapshot "$SCRATCH/code3"
+diff -r "$SCRATCH/code1" "$SCRATCH/code3" >/dev/null || { echo "the restored Code*.lean differ from the baseline"; exit 1; }
 if build "$SCRATCH/final.log"; then echo "   ok: LzProofs.GenProps builds"; else echo "   FINAL BUILD FAILED"; tail -30 "$SCRATCH/final.log"; exit 1; fi
 
 echo "== summary: $killed of $total mutants killed, $survived survived"
